@@ -14,7 +14,7 @@ Lemma prune_load_nonobj sn st v : is_obj v = false -> prune_load sn st v = v.
 Proof. destruct v; cbn; intros; congruence. Qed.
 
 Lemma is_obj_norm v : is_obj (norm v) = is_obj v.
-Proof. destruct v as [| | | | | |dt n| | | | | | | | | |]; try reflexivity. destruct n; reflexivity. Qed.
+Proof. destruct v as [| | | | | |dt n| | | | | | | | | | |]; try reflexivity. destruct n; reflexivity. Qed.
 
 Lemma is_obj_SGrp v : is_obj v = true -> sclass_of v = SGrp.
 Proof. destruct v; cbn; intros; congruence. Qed.
@@ -26,7 +26,7 @@ Lemma lts_arr st v : sclass_of v = SArr -> load_type_skipped st v = mem (exact_t
 Proof. unfold load_type_skipped. intros H. rewrite H. destruct v; cbn in H; try discriminate; reflexivity. Qed.
 
 Lemma lts_norm st v : load_type_skipped st (norm v) = load_type_skipped st v.
-Proof. destruct v as [| | | | | |dt n| | | | | | | | | |]; try reflexivity. destruct n; reflexivity. Qed.
+Proof. destruct v as [| | | | | |dt n| | | | | | | | | | |]; try reflexivity. destruct n; reflexivity. Qed.
 
 Lemma exact_ty_norm_grp v : sclass_of v = SGrp -> exact_ty (norm v) = exact_ty v.
 Proof. destruct v; cbn; intros; try discriminate; reflexivity. Qed.
